@@ -341,7 +341,7 @@ def range_t16(res, blk):
         for w in range(blk * 2048, (blk + 1) * 2048):
             if (w >> 11) in (0b11101, 0b11110, 0b11111):
                 continue
-            for addr in (isa.CODE, 0xFFFFFFFE):
+            for addr in (isa.CODE, 0xFFFFFFF8, 0xFFFFFFFA, 0xFFFFFFFE):
                 res.cases += 1
                 out = sweep.step_word(env, base, w, True, 16, 0, addr=addr)
                 res.transitions += 1
@@ -374,7 +374,9 @@ def range_h(res, idx):
                 variants.append(w2)
         for w2 in variants:
             for (rf, mode), base in bases.items():
-                for addr in (isa.CODE, 0xFFFFFFFC if not (t and olen == 16) else 0xFFFFFFFE):
+                # the last slots of the address space: PC + 4 / + 8 and the exception return addresses derived from them
+                # cross 2^32 from 0xFFFFFFF8 (all), 0xFFFFFFFC (32-bit) and 0xFFFFFFFE (16-bit Thumb)
+                for addr in (isa.CODE, 0xFFFFFFF8, 0xFFFFFFFC if not (t and olen == 16) else 0xFFFFFFFE):
                     res.cases += 1
                     res.add_state(hash((t, w2, rf, mode, addr)))
                     out = sweep.step_word(env, base, w2, bool(t), olen, 0, addr=addr)
